@@ -30,8 +30,10 @@ def main():
                 p = os.path.join(core.REPO, s)
                 rec["sources"][s] = core.sha_file(p)[:16] if os.path.exists(p) else "missing"
             text = mod.generate()
-            header = "(* GENERATED from %s by translator/%s.py -- do not edit.\n   sources: %s *)\n" % (
-                core.REPO, m, json.dumps(rec["sources"], sort_keys=True))
+            # no repository path in the header: runs against scratch worktrees with identical sources must not
+            # rewrite the file (a rewrite triggers a rebuild of everything that depends on the table)
+            header = "(* GENERATED from the repository under test by translator/%s.py -- do not edit.\n   sources: %s *)\n" % (
+                m, json.dumps(rec["sources"], sort_keys=True))
             rec["changed"] = core.write_if_changed(os.path.join(core.COQ, "gen", mod.NAME + ".v"), header + text)
             rec["ok"] = True
             rec["misses"] = getattr(mod, "MISSES", [])
